@@ -686,7 +686,7 @@ func (g *dgen) security() {
 		return
 	}
 	for i, k := range schemeKinds {
-		if t.Draw("scheme-"+k, 2) == 0 || (i == 3 && len(g.d.Schemes) == 0) {
+		if g.chance("scheme-"+k, "security", 2, 3, 4) || (i == 3 && len(g.d.Schemes) == 0) {
 			sc := &spec.Scheme{Name: []string{"basic_auth", "api_key", "jwt", "oauth"}[i], Kind: k}
 			if k == "jwt" || k == "oauth2" {
 				sc.Scopes = []string{"api:read", "api:write", "admin"}[:1+t.Draw("nscopes", 3)]
@@ -708,7 +708,7 @@ func (g *dgen) requirements() []*spec.Requirement {
 	var out []*spec.Requirement
 	for i := 0; i < n; i++ {
 		r := &spec.Requirement{}
-		k := 1 + t.Pick("nschemes", 3, 1)
+		k := 1 + t.Pick("nschemes", 2, 1)
 		off := t.Draw("scheme-off", len(g.d.Schemes))
 		for j := 0; j < k && j < len(g.d.Schemes); j++ {
 			sc := g.d.Schemes[(off+j)%len(g.d.Schemes)]
@@ -850,7 +850,15 @@ func (g *dgen) secure(svc *spec.Service, m *spec.Method, path *string) {
 				}
 				a := add(nm, sec, req)
 				authFree := !authTaken()
-				switch t.Draw("token-in", 3) {
+				if other := g.tokenOnAuthorization(m, pt); other != nil && other != a && g.chance("shared-authorization", "security", 1, 3, 5) {
+					// two token schemes read the same Authorization header: the caller gives one
+					// credential and both callbacks receive it
+					m.Headers[a.Name] = "Authorization"
+					a.Required, other.Required = false, false
+					g.feat("security:shared-authorization")
+					continue
+				}
+				switch t.Pick("token-in", 2, 1, 1) {
 				case 0:
 					if authFree {
 						m.Headers[a.Name] = "Authorization"
@@ -870,6 +878,18 @@ func (g *dgen) secure(svc *spec.Service, m *spec.Method, path *string) {
 	}
 }
 
+
+// tokenOnAuthorization returns the JWT/OAuth2 credential attribute mapped to the Authorization header, if any.
+func (g *dgen) tokenOnAuthorization(m *spec.Method, pt *spec.Type) *spec.Attr {
+	for a, h := range m.Headers {
+		if h == "Authorization" {
+			if f := pt.Field(a); f != nil && (f.Sec == "token" || f.Sec == "accesstoken") {
+				return f
+			}
+		}
+	}
+	return nil
+}
 
 // ---------------------------------------------------------------------------
 // result types with views
